@@ -137,6 +137,28 @@ NestCases ==
    CaseOf("C02/nest/retinloop", <<Func("find", <<Param("t", "int")>>, <<"int">>, <<Def1("r", NatLit(0)), For3(Def1("i", NatLit(0)), CmpE("<", Var("i"), NatLit(5)), Inc("i"), <<If1(CmpE("==", Var("i"), Var("t")), <<Asg1("r", Bin("*", Var("i"), NatLit(10)))>>)>>), RetS(<<Var("r")>>)>>),
                                   PrintS(<<CallE("find", <<NatLit(3)>>), CallE("find", <<NatLit(9)>>)>>)>>)}
 
-All == RoleCases \cup ArityCases \cup GlobalCases \cup SwapCases \cup NestCases
+\* (f) multi-target statements whose values call functions that themselves execute multi-target statements
+\*     (re-entrancy of whatever the back-end uses to make the assignment simultaneous)
+Callees == {"swap", "define", "vardef", "nested"}
+CalleeDef(kind) ==
+  CASE kind = "swap" -> Func("cal", <<Param("n", "int")>>, <<"int">>, <<Def(<<"p", "q">>, <<Var("n"), Bin("*", Var("n"), NatLit(2))>>), Asg(<<"p", "q">>, <<Var("q"), Var("p")>>), RetS(<<Bin("-", Var("p"), Var("q"))>>)>>)
+    [] kind = "define" -> Func("cal", <<Param("n", "int")>>, <<"int">>, <<Def(<<"lo", "hi">>, <<Var("n"), Bin("*", Var("n"), NatLit(2))>>), RetS(<<Bin("+", Var("lo"), Var("hi"))>>)>>)
+    [] kind = "vardef" -> Func("cal", <<Param("n", "int")>>, <<"int">>, <<VarDef(<<"u", "w">>, "int", <<>>), VarDef(<<"c", "d">>, "int", <<Var("n"), NatLit(1)>>), RetS(<<Bin("+", Bin("+", Var("u"), Var("w")), Bin("+", Var("c"), Var("d")))>>)>>)
+    [] kind = "nested" -> Func("cal", <<Param("n", "int")>>, <<"int">>, <<Def(<<"lo", "hi">>, <<Var("n"), CallE("inner", <<Var("n")>>)>>), RetS(<<Bin("+", Var("lo"), Var("hi"))>>)>>)
+InnerDef == Func("inner", <<Param("n", "int")>>, <<"int">>, <<Def(<<"e", "f">>, <<NatLit(1000), NatLit(2000)>>), RetS(<<Bin("+", Bin("+", Var("e"), Var("f")), Var("n"))>>)>>)
+ValAt(isCall, i) == IF isCall THEN CallE("cal", <<NatLit(10 * i)>>) ELSE NatLit(i)
+TName(i) == "t" \o ToString(i)
+MultiCallProg(kind, k, calls, form) ==
+  <<InnerDef, CalleeDef(kind)>>
+  \o (IF form = "asg" THEN <<VarDef([i \in 1..k |-> TName(i)], "int", <<>>)>> ELSE <<>>)
+  \o <<IF form = "asg" THEN Asg([i \in 1..k |-> TName(i)], [i \in 1..k |-> ValAt(i \in calls, i)])
+        ELSE Def([i \in 1..k |-> TName(i)], [i \in 1..k |-> ValAt(i \in calls, i)]),
+        PrintS([i \in 1..k |-> Var(TName(i))])>>
+RECURSIVE SetStr(_, _, _)
+SetStr(S, i, k) == IF i > k THEN "" ELSE (IF i \in S THEN "c" ELSE "v") \o SetStr(S, i + 1, k)
+MultiCallCases == UNION {{CaseOf("C02/multicall/" \o kind \o "/" \o form \o "/" \o SetStr(calls, 1, k), MultiCallProg(kind, k, calls, form))
+                          : calls \in (SUBSET (1..k)) \ {{}}} : kind \in Callees, k \in {2, 3}, form \in {"asg", "def"}}
+
+All == RoleCases \cup ArityCases \cup GlobalCases \cup SwapCases \cup NestCases \cup MultiCallCases
 ASSUME ndJsonSerialize("fam.ndjson", SetToSeq(All))
 =============================================================================
